@@ -758,7 +758,16 @@ def getslice(E, obj, lo, hi):
         s = E.as_z3_str(obj)
         n = z3.Length(s)
         a, b = clamp_slice(E, lo, hi, n)
-        return VS(z3.simplify(z3.SubString(s, a, z3.If(b > a, b - a, I(0)))))
+        r = z3.simplify(z3.SubString(s, a, z3.If(b > a, b - a, I(0))))
+        # ghost provenance (integer view of the slice, used by clauses that talk about positions instead of
+        # string equalities): r == base[lo:hi] with 0 <= lo <= hi <= len(base); slices of slices compose
+        info = E.ghost.setdefault('slice_of', {})
+        base, off = s, I(0)
+        if s.get_id() in info:
+            base, off, _hi = info[s.get_id()]
+        info[r.get_id()] = (base, z3.simplify(off + a), z3.simplify(off + z3.If(b > a, b, a)))
+        E.ghost.setdefault('slice_keep', []).append((s, r))      # keep the terms alive: ids are only unique among live terms
+        return VS(r)
     if isinstance(obj, VT):
         if (lo is None or isinstance(lo, VC)) and (hi is None or isinstance(hi, VC)):
             return VT(obj.items[(lo.v if lo else None):(hi.v if hi else None)])
